@@ -131,3 +131,25 @@ Fixpoint table_calls (tbl : list (N * call)) (g : N) : call :=
   | [] => mkCall (0, SchUnknown, []) None
   | (g', c) :: tbl' => if g =? g' then c else table_calls tbl' g
   end.
+
+(* Acceptor for recorded executions: every event may carry the instance the
+   harness saw the call use (pointer identity of the *syncutil.Once, numbered in
+   order of first appearance = the order in which the model creates them). *)
+Fixpoint crun_obs (calls : N -> call) (st : cstate) (tr : list (cevent * option nat)) : option cstate :=
+  match tr with
+  | [] => Some st
+  | (e, exp) :: tr' =>
+    match cstep calls st e with
+    | None => None
+    | Some st' =>
+      let ok :=
+        match e, exp with
+        | CLoad g, Some i => match nget (loaded st') g with Some j => Nat.eqb i j | None => false end
+        | _, _ => true
+        end in
+      if ok then crun_obs calls st' tr' else None
+    end
+  end.
+
+Definition set_accepts (tbl : list (N * call)) (tr : list (cevent * option nat)) : bool :=
+  match crun_obs (table_calls tbl) cinit tr with Some _ => true | None => false end.
